@@ -395,13 +395,13 @@ prop('C18', level='other', units=[DF + 'drop_samples_df', DF + 'limit_df', DF + 
 
 PL = 'bycycle.plts.cyclepoints.'
 prop('C20', level='other', units=[PL + 'plot_cyclepoints_array', PL + 'plot_cyclepoints_df', 'bycycle.objs.fit.Bycycle.plot',
-                                  'bycycle.plts.burst.plot_burst_detect_param'], jobs=['plots', 'limit_df', 'limit_signal'],
+                                  'bycycle.plts.burst.plot_burst_detect_param', 'bycycle.plts.burst.plot_burst_detect_summary'], jobs=['plots', 'limit_df', 'limit_signal'],
      unit_jobs={PL + 'plot_cyclepoints_array': ['plots'], PL + 'plot_cyclepoints_df': ['plots']},
      trusted=['bycycle.plts.burst.plot_burst_detect_summary as a callee of Bycycle.plot: bound against its real signature and logged, not '
               'verified (returns None, raises nothing, changes none of its arguments - assumed; decided by the bounded plots job)',
               'neurodsp.plts.plot_time_series: nothing is assumed about it; its calls and arguments are logged as ghost state and '
               'the contracts state what is handed to it (a call with ls=\'\' is "the marker call"); the @savefig decorator is dropped',
-              'matplotlib Axes.axvspan on the opaque drawing surface: external, only logged', 'np.unique(a): strictly increasing, every entry occurs in a, every entry of a occurs in it (assumed library contract)'],
+              'matplotlib Axes.axvspan on the opaque drawing surface: external, only logged', 'scipy.stats.zscore: an unconstrained real array of the input\'s length; matplotlib.pyplot.subplots: opaque figure / axes; neurodsp plot_bursts: logged', 'np.unique(a): strictly increasing, every entry occurs in a, every entry of a occurs in it (assumed library contract)'],
      assumptions=['the time grid np.arange(0, n / fs, 1 / fs) is taken as the exact grid i / fs over the reals and (i / fs) * fs as i: the '
                   'floating-point behaviour of the grid (where D10, D12 - D14 lived) is NOT covered by the deductive part; it stays with '
                   'the bounded job'],
@@ -426,7 +426,15 @@ prop('C20', level='other', units=[PL + 'plot_cyclepoints_array', PL + 'plot_cycl
                  'series is the parameter\'s per-cycle values at the cycle centres (sample / fs, the centre column of the table\'s own '
                  'centring), the threshold line spans the time axis at the given threshold; all indexing in range given the table '
                  'invariant (side extrema inside the signal). '
-                 'Bounded only: x-limits off the grid, the parameter panels under x-limits and with interp=False, the floating-point side of the grid (D12 - D14), plot_burst_detect_summary / '
+                 'plot_burst_detect_summary without x-limits (both centrings, with and without the parameter panels, interp=True, two '
+                 'thresholds given): the sample mask handed to plot_bursts has one entry per sample, the time axis is sample / fs, '
+                 'and the mask is true on ALL samples of every cycle labelled is_burst (from its opening to its closing side extremum, '
+                 'inclusive) and ONLY on samples of such cycles (loop invariant over the bursting rows, lifted to the whole table '
+                 'through the row selection); the last parameter panel is drawn from the same table with its own column and '
+                 'threshold. The zscore, the figure / axes and the drawing routines are external (logged, nothing assumed). '
+                 'NOT covered by a typed case: the extra keyword arguments (labels, colours) that the summary passes on to the '
+                 'cyclepoint and parameter plots - those units are verified for calls without extra keywords. '
+                 'Bounded only: x-limits off the grid, the burst summary and the parameter panels under x-limits, interp=False, the floating-point side of the grid (D12 - D14), plot_burst_detect_summary / '
                  '_param / Bycycle.plot (burst mask, parameter panels, threshold lines): the arguments handed to the drawing routines '
                  'are intercepted on corpus tables x sample-grid windows incl. low-truncating grid points and windows on cycle '
                  'boundaries; rendered artists are not inspected.')
